@@ -645,3 +645,50 @@ func ruleP18(p *Prog, r *Report) {
 	r.Decide(true, R, "divisions-examined", "-", "integer divisions / remainders in the decode scope: "+itoa(n)+", of which with a non-constant divisor: "+itoa(nVar), "")
 	r.Floor(R, "integer divisions in the decode scope", 1, n)
 }
+
+// K6 the caller's comparator decides key equality - it is handed down as it is.
+//
+// Digest agreement is not key equality; only the caller's ValueComparator says whether two keys are the same key.
+// Obligation per call in library code that passes an argument of type ValueComparator: the argument is a parameter of
+// that type (of the function or, inside a closure, of an enclosing function) - never a function literal or another
+// value built on the way, which could answer "equal" without asking the comparator.
+func ruleK6(p *Prog, r *Report) {
+	const R = "K6"
+	n := 0
+	for _, f := range p.Funcs {
+		if p.IsTestFile(f.Pos()) || len(f.Blocks) == 0 {
+			continue
+		}
+		eachInstr(f, func(in ssa.Instruction) {
+			c, ok := in.(ssa.CallInstruction)
+			if !ok {
+				return
+			}
+			for _, a := range c.Common().Args {
+				if typeName(a.Type()) != "ValueComparator" {
+					continue
+				}
+				n++
+				v := canon(a)
+				good := false
+				switch x := v.(type) {
+				case *ssa.Parameter:
+					good = true
+				case *ssa.FreeVar:
+					good = true // a captured parameter of the enclosing function
+					_ = x
+				case *ssa.UnOp:
+					// load of a captured cell / field holding the comparator
+					if _, isFV := x.X.(*ssa.FreeVar); isFV {
+						good = true
+					}
+					if _, ok := asLoadedField(v); ok {
+						good = true
+					}
+				}
+				r.Decide(good, R, "comparator-handed-down:"+p.Name(f), p.InstrPos(in), "the comparator argument is the caller's comparator", "a call is given a comparator that is not the caller's comparator parameter (a function literal or a value built here): key equality may then be decided without asking the caller's comparator - a key that merely shares the digests of a stored key is reported present")
+			}
+		})
+	}
+	r.Floor(R, "calls that pass a comparator", 20, n)
+}
